@@ -281,9 +281,34 @@ func c20(c *Ctx) {
 			cs.Filter[k] = "wrapper-" + k[11:] + " %f"
 			cs.Other[k] = Pick(r, []string{c20Current[k], map[string]string{"filter.lfs.clean": "git-lfs clean %f", "filter.lfs.smudge": "git-lfs smudge %f", "filter.lfs.process": "git-lfs filter"}[k]})
 		}
+		directedUninstall := r.Chance(10)
+		if directedUninstall {
+			// directed: none of the four hook files is the user's own, some are absent (never installed, or removed
+			// by hand), the others are git-lfs's — and the first command is `uninstall`
+			cur := func(h string) hookState {
+				return hookState{Kind: "current", Content: currentHookText(c, h), Mode: 0o755}
+			}
+			for hi, h := range c20Hooks {
+				switch r.Intn(4) {
+				case 0, 1:
+					cs.Hooks[hi] = hookState{Kind: "absent"}
+				case 2:
+					cs.Hooks[hi] = cur(h)
+				default:
+					cs.Hooks[hi] = hookState{Kind: "blank", Content: []byte("\n  \n\t\n"), Mode: 0o755}
+				}
+			}
+			cs.Hooks[0] = hookState{Kind: "absent"}
+			j := 1 + r.Intn(3)
+			cs.Hooks[j] = cur(c20Hooks[j])
+			c.R.Count("directed.uninstall-with-absent-hooks")
+		}
 		nc := 1 + r.Intn(4)
 		for k := 0; k < nc; k++ {
 			cmd := []string{Pick(r, []string{"install", "install", "update", "uninstall"})}
+			if directedUninstall && k == 0 {
+				cmd = []string{"uninstall"}
+			}
 			if r.Chance(18) {
 				// the implicit installation other commands perform on their way (installHooks(false))
 				cmd = Pick(r, [][]string{{"track", "*.c20x"}, {"untrack", "*.c20x"}, {"fsck"}})
@@ -474,8 +499,8 @@ func runC20Case(c *Ctx, ci int, cs c20Case) (mlines, mimpl []string) {
 					fail(fmt.Sprintf("`git lfs %s` changed or removed a %s hook that git-lfs did not generate (%s)", strings.Join(cmd, " "), c20Hooks[i], cs.Hooks[i].Kind), before.Hooks[i]+" -> "+after.Hooks[i])
 				}
 			}
-			if force && cmd[0] != "uninstall" {
-				userOwned[i] = false
+			if force && cmd[0] != "uninstall" && !skipRepo {
+				userOwned[i] = false // --force replaced it (with --skip-repo the hooks are not visited at all)
 			}
 		}
 		if implicit && fmt.Sprint(before.Filter) != fmt.Sprint(after.Filter) {
@@ -497,6 +522,34 @@ func runC20Case(c *Ctx, ci int, cs c20Case) (mlines, mimpl []string) {
 					if code == 0 {
 						fail("`git lfs install` did not report a conflicting "+k+" setting", clip(out, 200))
 					}
+				}
+			}
+		}
+		if cmd[0] == "uninstall" && code == 0 && !skipRepo {
+			// no hook file of the user's own among the four: uninstall leaves none of its own behind, whichever
+			// of them were absent before
+			anyUser := false
+			for i := range c20Hooks {
+				anyUser = anyUser || userOwned[i]
+			}
+			if !anyUser {
+				for i := range c20Hooks {
+					if after.Hooks[i] != "absent" {
+						fail("`git lfs uninstall` succeeded but left a hook behind that git-lfs generated (no hook file was the user's own)", c20Hooks[i]+": "+fmt.Sprint(before.Hooks)+" -> "+fmt.Sprint(after.Hooks))
+						break
+					}
+				}
+				c.R.Count("uninstall.no-user-hook")
+			}
+		}
+		if cmd[0] == "uninstall" && code == 0 {
+			// a setting that git-lfs did not write (a wrapper of the user's own, a key git-lfs does not know) is not
+			// uninstall's to delete; uninstall has no --force
+			for k, v := range before.Filter {
+				cur := c20Current[k]
+				custom := v != "" && v != cur && !strings.HasPrefix(v, "git-lfs ") && !strings.HasPrefix(v, "git lfs ") && !strings.HasPrefix(v, "git-media ") && !strings.HasPrefix(v, "git media ") && v != "true" && v != "false"
+				if custom && after.Filter[k] != v {
+					c.R.Add(Finding{Kind: "oracle", What: "`git lfs uninstall` deleted a " + k + " setting that git-lfs did not write", Case: clip(enc, 3000), Impl: v + " -> " + after.Filter[k], Sig: "D75"})
 				}
 			}
 		}
